@@ -169,6 +169,12 @@ theorem inv_step {s : S} (h : Inv s) (e : Ev) : Inv (step Cfg.fixed s e) := by
         | true => have := h12 hx; rw [ha] at this; cases this
       constructor <;> simp_all
 
+  | service =>
+    simp only [step]
+    split
+    · exact ⟨h1, h2, h3, h4, h5, h6, h7, h8, h9, h10, h11, h12⟩
+    · split <;> exact ⟨h1, h2, h3, h4, h5, h6, h7, h8, h9, h10, h11, h12⟩
+
 theorem cfg_fixed : Generated.avahiCfg = Cfg.fixed := by decide
 
 theorem inv_run (evs : List Ev) : Inv (run Cfg.fixed evs) := by
@@ -218,6 +224,37 @@ theorem C19_shutdown_final (evs : List Ev) :
   cases hp : s.published with
   | none => rfl
   | some t => have := (h.pubSess (by rw [hp]; simp)).1; rw [hs] at this; cases this
+
+/-- a session with the daemon always has a listener flag set, and nothing the daemon emitted was left untaken -/
+def InvL (s : S) : Prop := (s.session = true → s.listener = true) ∧ s.undelivered = 0
+
+theorem invL_step {s : S} (hi : Inv s) (h : InvL s) (e : Ev) : InvL (step Cfg.fixed s e) := by
+  obtain ⟨h1, h2⟩ := h
+  have hsl : s.browsing = true → s.listenerAlive = true := by
+    intro hb
+    have hs : s.session = true := by rw [← hi.browse]; exact hb
+    exact hi.listen (h1 hs)
+  unfold InvL
+  cases e <;> simp only [step, doStart, doAnnounce, Cfg.fixed, Bool.true_and]
+  all_goals (repeat' split)
+  all_goals (first | exact ⟨h1, h2⟩ | (constructor <;> simp_all))
+
+theorem invL_run (evs : List Ev) : InvL (run Cfg.fixed evs) := by
+  unfold run
+  suffices ∀ s, Inv s → InvL s → InvL (evs.foldl (step Cfg.fixed) s) from this _ inv_init ⟨(fun h => by cases h), rfl⟩
+  induction evs with
+  | nil => intro s _ h; exact h
+  | cons e es ih => intro s hi h; exact ih _ (inv_step hi e) (invL_step hi h e)
+
+/-- **C19 (services resolved afterwards are reported again)**: on every history, every browse result the daemon
+    emits is taken by the provider's listener and reported - none is left untaken; and whenever the daemon is
+    reachable, no reconnect is pending and the provider is running, the daemon does hold a browser for it
+    (`C19_resume`), so that results are emitted at all. -/
+theorem C19_results_reported (evs : List Ev) : (run Generated.avahiCfg evs).undelivered = 0 := by
+  rw [cfg_fixed]; exact (invL_run evs).2
+
+/-- non-vacuity: a service found after a daemon restart is reported -/
+example : (run Cfg.fixed [.start, .service, .daemonDown, .service, .daemonUp, .tick, .service]).reports = 2 := by decide
 
 /-- the pinned design: an announcement withdrawn during an outage is published again after the
     reconnect (the announcement was captured when the daemon went away) -/
